@@ -477,3 +477,73 @@ pub const RESERVED: &[&str] = &[
     "override", "priv", "typeof", "unsized", "virtual", "yield", "try", "gen", "new", "dispatch",
     "union", "default", "auto",
 ];
+
+/// One row of the reply routing table (reference semantics, computed from the model).
+#[derive(Clone, Debug, PartialEq, Serialize, Deserialize)]
+pub struct ReplyRow {
+    /// handler name (the reply id constant is derived from it)
+    pub name: String,
+    /// method covering a successful sub-message (declared `success` or `always`)
+    pub ok: Option<String>,
+    /// method covering a failed sub-message (declared `error` or `always`)
+    pub err: Option<String>,
+}
+
+#[derive(Clone, Debug, PartialEq, Serialize, Deserialize)]
+pub struct ReplyMethodView {
+    pub id: String,
+    pub name: String,
+    pub spec: ReplySpec,
+    /// concrete payload argument types (empty for raw)
+    pub payload_conc: Vec<Ty>,
+    pub data_conc: Ty,
+    pub err: ErrTy,
+}
+
+impl Program {
+    pub fn reply_methods(&self) -> Vec<ReplyMethodView> {
+        self.contract
+            .methods
+            .iter()
+            .filter_map(|m| {
+                let spec = m.reply.clone()?;
+                let payload_conc = match &spec.payload {
+                    Payload::Raw => vec![],
+                    Payload::Typed(a) => a.iter().map(|a| a.ty.resolve(&self.contract.generics, &[])).collect(),
+                };
+                Some(ReplyMethodView {
+                    id: format!("ctr::reply::{}", m.name),
+                    name: m.name.clone(),
+                    data_conc: spec.data_ty.resolve(&self.contract.generics, &[]),
+                    spec,
+                    payload_conc,
+                    err: m.err,
+                })
+            })
+            .collect()
+    }
+
+    /// Handler names in first-appearance order with the methods covering each outcome.
+    pub fn reply_table(&self) -> Vec<ReplyRow> {
+        let mut rows: Vec<ReplyRow> = vec![];
+        for m in self.reply_methods() {
+            let names = if m.spec.handlers.is_empty() { vec![m.name.clone()] } else { m.spec.handlers.clone() };
+            for n in names {
+                let idx = match rows.iter().position(|r| r.name == n) {
+                    Some(i) => i,
+                    None => {
+                        rows.push(ReplyRow { name: n.clone(), ok: None, err: None });
+                        rows.len() - 1
+                    }
+                };
+                if m.spec.on.covers_ok() {
+                    rows[idx].ok = Some(m.name.clone());
+                }
+                if m.spec.on.covers_err() {
+                    rows[idx].err = Some(m.name.clone());
+                }
+            }
+        }
+        rows
+    }
+}
